@@ -202,7 +202,7 @@ class Ctx:
         """a verdict-relevant check: incremental first, then one-shot in a fresh solver (stronger preprocessing)"""
         r = self.check(*extra)
         if r != z3.unknown:
-            return r, None
+            return r, self.last_model
         s2 = z3.Solver()
         s2.set('timeout', FINAL_TIMEOUT_MS)
         s2.add(self.s.assertions())
@@ -222,9 +222,11 @@ class Ctx:
             for c in extra:
                 self.s.add(c)
             r = self.s.check()
+            self.last_model = self.s.model() if r == z3.sat else None
             self.s.pop()
         else:
             r = self.s.check()
+            self.last_model = self.s.model() if r == z3.sat else None
         if r == z3.unknown:
             self.unknowns += 1
         return r
